@@ -209,6 +209,7 @@ PINNED = [
     ('![a](x"y)\n', '<p><img src="x%22y" alt="a" /></p>\n'),
     ('- a\n  > b\n- c\n', '<ul>\n<li>a\n<blockquote>\n<p>b</p>\n</blockquote>\n</li>\n<li>c</li>\n</ul>\n'),
     ('~~foo\nbar~~\n', '<p><del>foo\nbar</del></p>\n'),
+    ('![foo\nbar  \nbaz](/u)\n', '<p><img src="/u" alt="foo\nbar\nbaz" /></p>\n'),
     ('para\n<div>\nx\n</div>\n', '<p>para</p>\n<div>\nx\n</div>\n'),
 ]
 
